@@ -106,14 +106,34 @@ def fixed_point_phase2(rng, ops, results):
 # ---------------------------------------------------------------------------
 # arrival / steps / derive / wcet / demand
 
+def densest_vector(a):
+    """largest (entries per time unit) of a delta-min-like vector anywhere inside the term: an
+    extrapolating curve queried at delta grows its vector to about delta * density entries, and
+    the list-based model needs cubic time for that"""
+    best = 0.0
+    if isinstance(a, (tuple, list)):
+        ints = [x for x in a if isinstance(x, list) and x and all(isinstance(y, int) for y in x)]
+        for v in ints:
+            best = max(best, len(v) / max(v[-1], 1))
+        for x in a:
+            if isinstance(x, (tuple, list)):
+                best = max(best, densest_vector(x))
+    return best
+
+
 def pick_delta(rng, a):
     """argument for number_arrivals: small, around multiples of characteristic values, large"""
     r = rng.random()
     if r < 0.5:
-        return rng.randint(0, 60)
-    if r < 0.85:
-        return rng.randint(0, 400)
-    return rng.randint(0, 5000)
+        d = rng.randint(0, 60)
+    elif r < 0.85:
+        d = rng.randint(0, 400)
+    else:
+        d = rng.randint(0, 5000)
+    dens = densest_vector(a)
+    if dens > 0:
+        d = min(d, int(700 / dens))
+    return d
 
 
 def stream_arrival(rng, n):
